@@ -282,6 +282,7 @@ def voc_mmx():
     V['_mm_empty'] = lambda ex, c, a: None
     V['_mm_or_si64'] = _or
     V['_mm_xor_si64'] = _xor
+    V['_mm_unpacklo_pi8'] = V['_mm_unpackhi_pi8'] = V['_mm_unpacklo_pi16'] = V['_mm_unpackhi_pi16'] = _unpack_zero
     for n in ('expand8888', 'expand565', 'to_m64', 'to_uint64', 'expand4444'):
         V[n] = lambda ex, c, a: ex.val(a[0])
     V['expandx888'] = lambda ex, c, a: ex.opaque(ex.val(a[0]))
@@ -341,7 +342,7 @@ class Exec:
 
         def walk(b, state, prev, visited, start_idx=0):
             limit[0] += 1
-            if limit[0] > 400:
+            if limit[0] > getattr(self, "path_limit", 400):
                 raise Unknown('too many paths in %s' % f.name)
             env, mem, assum, writes, notes = state
             env = dict(env); mem = dict(mem); assum = dict(assum); writes = list(writes); notes = list(notes)
@@ -1535,7 +1536,7 @@ def _scanline_callees(u, F, depth=3):
 def r10s_scaled_scanlines(ck, P):
     """the per-scanline kernels of the scaled nearest-neighbour fast paths"""
     P0 = P
-    R = ck.rule('C02-R10s', 'the scanline kernels of the scaled nearest-neighbour fast paths (SSE2, MMX and the portable C ones) write, in every pixel loop and on every shortcut branch, the Porter-Duff result of the operator and formats of the table entries whose main loop calls them (the source pixel is whichever one the stepping selects; its position is C08\'s concern)', floor=39)
+    R = ck.rule('C02-R10s', 'the scanline kernels of the scaled nearest-neighbour fast paths (SSE2, MMX and the portable C ones) write, in every pixel loop and on every shortcut branch, the Porter-Duff result of the operator and formats of the table entries whose main loop calls them (the source pixel is whichever one the stepping selects; its position is C08\'s concern)', floor=45)
     from . import tables
     C = __import__('pxv.consts', fromlist=['x']).fast_path_flags()
     ops, N = algebra.operators(P)
@@ -1599,7 +1600,7 @@ def r10s_scaled_scanlines(ck, P):
                         ex.solid_syms = ({M, MA} if msk_fmt == solid else set())
                         pre = ex.prefix_states(sf, argvals, L['header'])
                         ex = RExec(P, u, voc, has_mask); ex.loop_header = L['header']; ex.base = base; ex.mask_bits = False
-                        ex.init_states = pre
+                        ex.init_states = pre; ex.path_limit = 6000
                         res = ex.run_paths(sf, argvals, region=set(L['blocks']), start=L['header'])
                         wrote = False
                         for assum, rv, writes, notes, _m in res:
